@@ -7,6 +7,7 @@ import (
 	"os"
 	"path/filepath"
 	"regexp"
+	"runtime"
 	"sort"
 	"strconv"
 	"strings"
@@ -122,6 +123,7 @@ type tmpl struct {
 	Args  []string // options with non-default values and positional arguments
 	Stdin string   // name of the input sent on stdin ("" = nothing)
 	Skip  []string // flags that cannot be compared in this template
+	Fails bool     // the invocation is refused by an argument check before any work (network commands offline)
 	Base  string   // name of the template this one must give another outcome than (it only adds options with non-default values)
 }
 
@@ -135,13 +137,27 @@ func setSupports(t *tree.Tree, r *rand.Rand) {
 	}
 }
 
-func yule(r *rand.Rand, n int, rooted bool) *tree.Tree {
+// yule draws a tree; shape decides the decoration: 0 binary with lengths and supports, 1 without
+// supports, 2 multifurcating (short and weakly supported branches collapsed), 3 without lengths
+// (every length absent) — the options are exercised on other kinds of trees than the fixed inputs.
+func yule(r *rand.Rand, n int, rooted bool, shape int) *tree.Tree {
 	rand.Seed(r.Int63())
 	t, err := tree.RandomYuleBinaryTree(n, rooted)
 	if err != nil {
 		panic(err)
 	}
 	setSupports(t, r)
+	switch shape {
+	case 1:
+		t.ClearSupports()
+	case 2:
+		t.CollapseShortBranches(0.03, false, false)
+		t.CollapseLowSupport(0.2, false)
+	case 3:
+		for _, e := range t.Edges() {
+			e.SetLength(tree.NIL_LENGTH)
+		}
+	}
 	return t
 }
 
@@ -159,15 +175,19 @@ func makeInputs(variant int64) inputs {
 	} else {
 		r := rand.New(rand.NewSource(variant))
 		n := 8 + r.Intn(5)
-		in["tree"] = yule(r, n, false).Newick() + "\n"
-		in["tree2"] = yule(r, n, false).Newick() + "\n"
-		in["rooted"] = yule(r, n, true).Newick() + "\n"
+		shape := int(variant % 4)
+		if shape < 0 {
+			shape = -shape
+		}
+		in["tree"] = yule(r, n, false, shape).Newick() + "\n"
+		in["tree2"] = yule(r, n, false, 0).Newick() + "\n"
+		in["rooted"] = yule(r, n, true, shape).Newick() + "\n"
 		ts := in["tree"] + in["tree2"]
 		for i := 0; i < 3; i++ {
 			if r.Intn(2) == 0 {
 				ts += in["tree"]
 			} else {
-				ts += yule(r, n, false).Newick() + "\n"
+				ts += yule(r, n, false, shape).Newick() + "\n"
 			}
 		}
 		in["trees"] = ts
@@ -179,6 +199,18 @@ func makeInputs(variant int64) inputs {
 	in["single"] = "((Tip0:0.1,Tip1:0.2):0.05,((Tip2:0.3):0.1,Tip3:0.1):0.2,Tip4:0.3);\n"
 	in["multif"] = "((Tip0:0.1,Tip1:0.2,Tip2:0.1)0.9:0.05,(Tip3:0.3,Tip4:0.1,Tip5:0.2)0.7:0.2,Tip6:0.3,Tip7:0.1);\n"
 	in["named"] = "((Tip0:0.1,Tip1:0.2)clade1:0.05,(Tip2:0.3,(Tip3:0.1,Tip4:0.15)clade3:0.02)clade2:0.07,((Tip5:0.2,Tip6:0.25)clade5:0.3,Tip7:0.12)clade4:0.01);\n"
+	nexus := func(trees string) string {
+		var b strings.Builder
+		b.WriteString("#NEXUS\nBEGIN TREES;\n")
+		for i, t := range strings.Split(strings.TrimSpace(trees), "\n") {
+			fmt.Fprintf(&b, "TREE t%d = %s\n", i+1, t)
+		}
+		b.WriteString("END;\n")
+		return b.String()
+	}
+	in["treenexus"] = nexus(in["tree"])
+	in["treesnexus"] = nexus(in["trees"])
+	in["zerolen"] = "((Tip0:0,Tip1:0.2)0.9:0,(Tip2:0.000001,Tip3:0.1)0.7:0.2,Tip4:0.3);\n"
 	in["tipfile"] = "Tip0\nTip1\nTip2\n"
 	in["tipfile2"] = "Tip3\nTip4\n"
 	in["mapfile"] = "Tip0\tAlpha\nTip1\tBeta\nTip5\tGamma\n"
@@ -207,6 +239,7 @@ func templates() []tmpl {
 		return tmpl{Name: name, Path: path, Stdin: stdin, Args: args}
 	}
 	B := func(base string, t tmpl) tmpl { t.Base = base; return t }
+	F := func(t tmpl) tmpl { t.Fails = true; return t }
 	return []tmpl{
 		T("stats", "stats", "tree"),
 		T("stats-edges", "stats edges", "tree"),
@@ -232,6 +265,10 @@ func templates() []tmpl {
 		T("brlen-set", "brlen set", "tree"),
 		B("brlen-set", T("brlen-set-l", "brlen set", "tree", "-l", "0.3")),
 		T("brlen-setrand", "brlen setrand", "tree", "--seed", "1"),
+		B("brlen-setrand", T("brlen-setrand-range", "brlen setrand", "tree", "--seed", "1", "--min-mean", "0.01", "--max-mean", "0.2")),
+		B("brlen-setrand", T("brlen-setrand-mean", "brlen setrand", "tree", "--seed", "1", "-m", "0.3")),
+		T("brlen-setrand-min", "brlen setrand", "tree", "--seed", "1", "--min-mean", "0.01"),
+		B("brlen-setrand", T("brlen-setrand-window", "brlen setrand", "tree", "--seed", "1", "--min-len", "0.1", "--max-len", "0.25")),
 		T("divide", "divide", "trees"),
 		B("divide", T("divide-o", "divide", "trees", "-o", "part")),
 		T("annotate-map", "annotate", "tree", "-m", "{annotmap}"),
@@ -333,6 +370,13 @@ func templates() []tmpl {
 		T("support-setrand", "support setrand", "tree", "--seed", "1"),
 		T("unroot", "unroot", "rooted"),
 		T("version", "version", ""),
+		// the commands that need the network: only what is decided before the first connection can be
+		// run offline (a missing mandatory identifier; an empty tree on stdin).  Anything further
+		// (download itol -i <id>, download ncbitax, download panther -f <family>, upload itol < tree)
+		// fails in the resolver with an error text that contains ephemeral port numbers: no template.
+		F(T("dl-panther-noid", "download panther", "")),
+		F(T("dl-itol-noid", "download itol", "")),
+		F(T("upload-itol-empty", "upload itol", "")),
 	}
 }
 
@@ -502,9 +546,26 @@ func (r *runner) invoke(words []string, args []string, stdin string) string {
 		// a failing run: the error message is the observable output (paths of the scratch directories masked)
 		se := strings.ReplaceAll(res.Stderr, top, "<run>")
 		se = logStamp.ReplaceAllString(se, "<time> ")
+		// keep the diagnostics only: the banners some commands log (start time, …) are not an outcome
+		var keep []string
+		for _, l := range strings.Split(se, "\n") {
+			if strings.Contains(l, "rror") || strings.Contains(l, "arning") || strings.Contains(l, "panic") || strings.HasPrefix(l, "goroutine ") {
+				keep = append(keep, l)
+			}
+		}
+		se = strings.Join(keep, "\n")
 		b.WriteString("\nstderr:\n" + blob([]byte(se)))
 	}
 	return b.String()
+}
+
+// fixedField: "true" = fixed inputs, the template must succeed; "false" = drawn inputs;
+// "fails" = the template is an invocation that an argument check refuses
+func fixedField(r *runner, t tmpl) string {
+	if t.Fails {
+		return "fails"
+	}
+	return b2s(r.fixed)
 }
 
 type e2eCase struct {
@@ -594,12 +655,22 @@ func e2e(c *core.Ctx, r *runner, ts []tmpl, only func(t tmpl, flag string) bool)
 		k.o0 = *base[k.t.Name]
 		if k.joint {
 			c.Emit("C19.e2e", e("gotree "+k.t.Path), "*", "all", "", k.t.Name,
-				core.StrList(mask(k.a0)), core.StrList(mask(k.a1)), e(k.o0), e(k.o1), b2s(r.fixed))
+				core.StrList(mask(k.a0)), core.StrList(mask(k.a1)), e(k.o0), e(k.o1), fixedField(r, k.t))
 			continue
 		}
 		c.Emit("C19.e2e", e("gotree "+k.t.Path), e(k.f.Name), e(k.f.Value.Type()), e(k.f.DefValue), k.t.Name,
-			core.StrList(mask(k.a0)), core.StrList(mask(k.a1)), e(k.o0), e(k.o1), b2s(r.fixed))
+			core.StrList(mask(k.a0)), core.StrList(mask(k.a1)), e(k.o0), e(k.o1), fixedField(r, k.t))
 	}
+}
+
+// emitWrites: table (e), the assignments to option variables made after parsing.
+func emitWrites(c *core.Ctx) {
+	ws, _ := optionWrites(c.Repo)
+	var b strings.Builder
+	for _, w := range ws {
+		b.WriteString(core.StrList([]string{w.Path, w.GoVar, w.File, w.Rhs}) + ";")
+	}
+	c.Emit("C19.writes", b.String())
 }
 
 // emitReads: one case per (command, flag-bound variable the command's body reads without binding
@@ -619,7 +690,11 @@ func emitReads(c *core.Ctx, table []Row, only string) {
 				regs = append(regs, r)
 			}
 		}
-		c.Emit("C19.reads", e(u.Path), e(u.GoVar), e(fmt.Sprintf("cmd/%s:%d", u.File, u.Line)), encRows(regs))
+		pos := fmt.Sprintf("cmd/%s:%d", u.File, u.Line)
+		if u.Via != "" {
+			pos += " via " + u.Via
+		}
+		c.Emit("C19.reads", e(u.Path), e(u.GoVar), e(pos), encRows(regs))
 	}
 }
 
@@ -729,6 +804,187 @@ func effects(c *core.Ctx, r *runner, ts []tmpl, only string) {
 	}
 }
 
+// preRunCases: what the global options mean after parsing (Model/C19PreRun).
+//
+//	C19.format  path runs     runs: [args, formatValue ("" = omitted), inputKind, outcome] …
+//	C19.seed    path runs     runs: [seedValue ("" = omitted), outcome of a first run, of a second run] …
+//	C19.threads path maxcpus runs   runs: [threadsValue ("" = omitted), outcome] …
+func preRunCases(c *core.Ctx, r *runner, only string) {
+	e := core.Escape
+	type fr struct {
+		args  []string
+		fv    string
+		kind  string
+		stdin string
+	}
+	formatSets := []struct {
+		name, path string
+		runs       []fr
+	}{
+		{"stats", "stats", []fr{
+			{nil, "", "newick", "tree"},
+			{[]string{"--format=newick"}, "newick", "newick", "tree"},
+			{[]string{"--format=foo"}, "foo", "newick", "tree"},
+			{[]string{"--format=NEXUS"}, "NEXUS", "newick", "tree"},
+			{[]string{"--format=nexus"}, "nexus", "nexus", "treenexus"},
+			{[]string{"--format=nexus"}, "nexus", "newick", "tree"},
+			{nil, "", "nexus", "treenexus"},
+			{[]string{"--format=foo"}, "foo", "nexus", "treenexus"},
+		}},
+		// compute support has a PersistentPreRunE of its own, which must call the root's
+		{"fbp", "compute support fbp", []fr{
+			{[]string{"-b", "{trees}"}, "", "newick", "tree"},
+			{[]string{"-b", "{trees}", "--format=newick"}, "newick", "newick", "tree"},
+			{[]string{"-b", "{treesnexus}", "--format=nexus"}, "nexus", "nexus", "treenexus"},
+			{[]string{"-b", "{treesnexus}"}, "", "nexus", "treenexus"},
+		}},
+		// reformat --input-format is bound to the same variable as --format
+		{"reformat", "reformat newick", []fr{
+			{nil, "", "newick", "tree"},
+			{[]string{"--input-format=newick"}, "newick", "newick", "tree"},
+			{[]string{"-f", "nexus"}, "nexus", "nexus", "treenexus"},
+			{[]string{"--format=nexus"}, "nexus", "nexus", "treenexus"},
+			{[]string{"-f", "bar"}, "bar", "newick", "tree"},
+		}},
+	}
+	for _, fs := range formatSets {
+		if only != "" && only != "format/"+fs.name {
+			continue
+		}
+		var b strings.Builder
+		for _, x := range fs.runs {
+			o := r.invoke(strings.Fields(fs.path), r.subst(x.args), x.stdin)
+			b.WriteString(core.StrList([]string{strings.Join(x.args, " "), x.fv, x.kind, o}) + ";")
+		}
+		c.Emit("C19.format", e("gotree "+fs.path), fs.name, b.String())
+	}
+	seedSets := []struct{ name, path, stdin string }{
+		{"gen-yule", "generate yuletree", ""},
+		{"setrand", "brlen setrand", "tree"},
+		// only commands that draw real numbers: two clock-seeded runs coincide with probability 0
+		// (sample / shuffletips have few outcomes and would make the comparison a lottery)
+		{"support-setrand", "support setrand", "tree"},
+		{"gen-uniform", "generate uniformtree", ""},
+	}
+	for _, ss := range seedSets {
+		if only != "" && only != "seed/"+ss.name {
+			continue
+		}
+		var b strings.Builder
+		for _, sv := range []string{"", "-1", "7", "0", "-2"} {
+			var args []string
+			if sv != "" {
+				args = []string{"--seed=" + sv}
+			}
+			o1 := r.invoke(strings.Fields(ss.path), args, ss.stdin)
+			time.Sleep(2 * time.Millisecond) // the clock seed is in nanoseconds; be generous
+			o2 := r.invoke(strings.Fields(ss.path), args, ss.stdin)
+			b.WriteString(core.StrList([]string{sv, o1, o2}) + ";")
+		}
+		c.Emit("C19.seed", e("gotree "+ss.path), ss.name, b.String())
+	}
+	if only == "" || only == "threads/compare-trees" {
+		var b strings.Builder
+		for _, tv := range []string{"", "1", "2", "20000"} {
+			args := []string{"-c", "{trees}"}
+			if tv != "" {
+				args = append(args, "--threads="+tv)
+			}
+			o := r.invoke([]string{"compare", "trees"}, r.subst(args), "tree")
+			b.WriteString(core.StrList([]string{tv, o}) + ";")
+		}
+		c.Emit("C19.threads", e("gotree compare trees"), "compare-trees", strconv.Itoa(runtime.NumCPU()), b.String())
+	}
+}
+
+// glueCases: what the anchored commands do with the value of their option (Model/C19Glue).
+//
+//	C19.glue  set  runs    runs: [value ("" = option omitted), outcome] …  (set-specific meaning, see the driver)
+func glueCases(c *core.Ctx, r *runner, only string) {
+	type gr struct {
+		val   string
+		words []string
+		args  []string
+		stdin string
+	}
+	ntrees := strconv.Itoa(strings.Count(r.in["trees"], "\n"))
+	sets := []struct {
+		name, extra string
+		runs        []gr
+	}{
+		{"consensus", "", func() []gr {
+			var out []gr
+			for _, v := range []string{"", "0.5", "0.4", "0.49999", "0.75", "1", "1.01", "0", "-1"} {
+				var a []string
+				if v != "" {
+					a = []string{"--freq-min=" + v}
+				}
+				out = append(out, gr{v, []string{"compute", "consensus"}, a, "trees"})
+			}
+			return out
+		}()},
+		{"divide", ntrees, []gr{
+			{"", []string{"divide"}, nil, "trees"},
+			{"prefix", []string{"divide"}, []string{"--output=prefix"}, "trees"},
+			{"part", []string{"divide"}, []string{"-o", "part"}, "trees"},
+			{"stdout", []string{"divide"}, []string{"-o", "stdout"}, "trees"},
+		}},
+		{"annotate", "", []gr{
+			{"", []string{"annotate"}, []string{"-i", "{tree}"}, "named"},
+			{"stdin", []string{"annotate"}, []string{"-i", "{tree}", "--compared=stdin"}, "named"},
+			{"none", []string{"annotate"}, []string{"-i", "{tree}", "--compared=none"}, "named"},
+			{"-", []string{"annotate"}, []string{"-i", "{tree}", "-c", "-"}, "named"},
+		}},
+		{"setmin", "", []gr{
+			// zero and tiny lengths: a cut-off of 0 (the documented default) must leave them alone
+			{"reformat", []string{"reformat", "newick"}, nil, "zerolen"},
+			{"", []string{"brlen", "setmin"}, nil, "zerolen"},
+			{"0", []string{"brlen", "setmin"}, []string{"--length=0"}, "zerolen"},
+			{"-5", []string{"brlen", "setmin"}, []string{"-l", "-5"}, "zerolen"},
+		}},
+		{"comment-clear", "", []gr{
+			{"", []string{"comment", "clear"}, nil, "commented"},
+			{"false,false", []string{"comment", "clear"}, []string{"--edges-only=false", "--nodes-only=false"}, "commented"},
+			{"true,true", []string{"comment", "clear"}, []string{"--edges-only", "--nodes-only"}, "commented"},
+			{"true,false", []string{"comment", "clear"}, []string{"--edges-only"}, "commented"},
+			{"false,true", []string{"comment", "clear"}, []string{"--nodes-only"}, "commented"},
+		}},
+		{"rename-length", "", func() []gr {
+			var out []gr
+			for _, v := range []string{"", "10", "3", "5", "0", "7"} {
+				a := []string{"-a", "-m", "outmap.txt"}
+				if v != "" {
+					a = append(a, "--length="+v)
+				}
+				out = append(out, gr{v, []string{"rename"}, a, "tree"})
+			}
+			return out
+		}()},
+		{"topologies", "", []gr{
+			{"", []string{"generate", "topologies"}, []string{"-i", "{otherunrooted}"}, ""},
+			{"10", []string{"generate", "topologies"}, []string{"-i", "{otherunrooted}", "--nbtips=10"}, ""},
+			{"4", []string{"generate", "topologies"}, []string{"-i", "{otherunrooted}", "-l", "4"}, ""},
+			{"6", []string{"generate", "topologies"}, []string{"-i", "{otherunrooted}", "-l", "6"}, ""},
+		}},
+		{"merge", "", []gr{
+			{"", []string{"merge"}, []string{"-i", "{rooted}"}, "other"},
+			{"stdin", []string{"merge"}, []string{"-i", "{rooted}", "--compared=stdin"}, "other"},
+			{"none", []string{"merge"}, []string{"-i", "{rooted}", "--compared=none"}, "other"},
+		}},
+	}
+	for _, gs := range sets {
+		if only != "" && only != gs.name {
+			continue
+		}
+		var b strings.Builder
+		for _, x := range gs.runs {
+			o := r.invoke(x.words, r.subst(x.args), x.stdin)
+			b.WriteString(core.StrList([]string{x.val, o}) + ";")
+		}
+		c.Emit("C19.glue", gs.name, gs.extra, b.String())
+	}
+}
+
 // Replay re-executes request lines on the current code (recorded outputs are ignored).
 //
 //	C19.table                       the whole table
@@ -738,6 +994,8 @@ func effects(c *core.Ctx, r *runner, ts []tmpl, only string) {
 //	C19.e2e <path> <flag> <type> <DefValue> <template>   one end-to-end comparison (variant 0 inputs);
 //	                                flag "*" = every option the template omits spelled out at once
 //	C19.effect <path> <template>    a template with non-default options against its base template
+//	C19.format|seed|threads <path> <set>   the global options after parsing
+//	C19.glue <set>                  option glue of one anchored command
 //	C19.help <path>                 help text of one command
 //	C19.roundtrip <path> <flag>     Set(DefValue).String() of one flag
 func Replay(c *core.Ctx, lines []string) {
@@ -765,6 +1023,8 @@ func Replay(c *core.Ctx, lines []string) {
 			emitTable(c, table)
 		case "C19.order":
 			emitOrder(c, table)
+		case "C19.writes":
+			emitWrites(c)
 		case "C19.reads":
 			emitReads(c, table, un(1)+"/"+un(2))
 		case "C19.row":
@@ -786,6 +1046,22 @@ func Replay(c *core.Ctx, lines []string) {
 			if cc := findCmd(strings.TrimPrefix(strings.TrimPrefix(un(1), "gotree"), " ")); cc != nil {
 				emitHelp(c, table, cc)
 			}
+		case "C19.glue":
+			if c.Gotree == "" {
+				continue
+			}
+			if r == nil {
+				r = newRunner(c, 0)
+			}
+			glueCases(c, r, f[1])
+		case "C19.format", "C19.seed", "C19.threads":
+			if c.Gotree == "" {
+				continue
+			}
+			if r == nil {
+				r = newRunner(c, 0)
+			}
+			preRunCases(c, r, strings.TrimPrefix(f[0], "C19.")+"/"+f[2])
 		case "C19.effect":
 			if c.Gotree == "" {
 				continue
@@ -820,6 +1096,10 @@ func Replay(c *core.Ctx, lines []string) {
 // Run generates the cases of C19: the whole table (one case per row + one for the table), then
 // the end-to-end comparisons.
 func Run(c *core.Ctx) {
+	if c.Arg == "debug-writes" {
+		debugWrites(c.Repo)
+		return
+	}
 	if c.Arg != "" && c.Arg != "race" {
 		Replay(c, core.ReadRequests(c.Arg))
 		return
@@ -827,6 +1107,7 @@ func Run(c *core.Ctx) {
 	table := Table()
 	emitTable(c, table)
 	emitOrder(c, table)
+	emitWrites(c)
 	emitReads(c, table, "")
 	for i := range table {
 		emitRow(c, table, i)
@@ -861,6 +1142,8 @@ func Run(c *core.Ctx) {
 		e2e(c, r, ts, nil)
 		if v == 0 {
 			effects(c, r, ts, "")
+			preRunCases(c, r, "")
+			glueCases(c, r, "")
 		}
 		r.close()
 	}
